@@ -153,10 +153,12 @@ def run_drive(exe, seed, n, lines=None):
     return ok, text, err.decode(errors="replace")[-600:]
 
 
-def run_conn(exe, seed):
-    """connection-level scenarios on real sockets -> (n cases, [(sig, desc)], stats)"""
+def run_conn(exe, seed, drv_model=None):
+    """connection-level scenarios on real sockets -> (n cases, [(sig, desc)], stats, model diffs)
+    drv_model: callable(list of lines) -> list of output lines of jm_c16 (for the connect() loop cases)"""
     d = tempfile.mkdtemp(prefix="c16n-", dir="/var/tmp")
-    fails, stats = [], {"connectgc_cases": 0, "connectgc_not_applicable": 0, "accept_bursts": 0, "connections": 0, "max_burst": 0}
+    diffs, plans = [], []
+    fails, stats = [], {"connect_call_cases": 0, "connectgc_cases": 0, "connectgc_not_applicable": 0, "accept_bursts": 0, "connections": 0, "max_burst": 0}
     try:
         rc, out, err = run_cmd([exe, os.path.join(VERIF, "harness/C16/conn.janet"), d, str(seed)], timeout=240,
                                env=dict(ENV, C16_BACKSTOP_MS="60000"), cwd=d)
@@ -179,6 +181,22 @@ def run_conn(exe, seed):
                                   "was delivered (line: %s)" % (how, kv.get("after"), line)))
                 elif kv.get("end") != "stop":
                     fails.append(("connect-cancel", "a pending net/connect that is cancelled must raise the cancel value: %s" % line))
+            elif line.startswith("connectcall "):
+                n += 1
+                stats["connect_call_cases"] += 1
+                plan = [int(x) for x in kv.get("plan", "").split(",") if x]
+                last = plan[-1] if plan else 0
+                # direct expectation: EINTR is retried, the first other answer decides; an error raises it and closes the descriptor once
+                want_calls = len(plan)
+                if last == 0:
+                    ok = kv.get("result") == "stream" and kv.get("closes") == "0"
+                else:
+                    ok = kv.get("result", "").startswith("could_not_connect_socket:_" + os.strerror(last).replace(" ", "_")) and kv.get("closes") == "1"
+                if not ok or kv.get("calls") != str(want_calls) or kv.get("unused") != "0":
+                    fails.append(("connect-call", "net/connect with connect() answering %s (-1 = EINTR, 0 = the real call, n = errno n): %s -- expected %d "
+                                  "calls, %s" % (plan, line, want_calls, "the stream, nothing closed" if last == 0 else
+                                                 "`could not connect socket: %s` and the descriptor closed exactly once" % os.strerror(last))))
+                plans.append((plan, kv))
             elif line.startswith("acceptburst "):
                 n += 1
                 stats["accept_bursts"] += 1
@@ -197,6 +215,14 @@ def run_conn(exe, seed):
                     fails.append(("accept-loop-close", "closing the listener must end net/accept-loop with nil: %s" % line))
         if rc != 0 or "DONE" not in text:
             fails.append(("conn-script", "conn.janet did not finish: rc=%s %s %s" % (rc, text[-300:], err.decode(errors="replace")[-300:])))
-        return n, fails, stats
+        if drv_model and plans:
+            outs = drv_model(["NK " + " ".join(str(x) for x in p) for p, _ in plans])
+            for (p, kv), mo in zip(plans, outs):
+                m = re.match(r"(registered|raised(\d+)|starved) calls=(\d+) closes=(\d+)$", mo.strip())
+                impl = ("registered" if kv.get("result") == "stream" else "raised", kv.get("calls"), kv.get("closes"))
+                if not m or (m.group(1).rstrip("0123456789"), m.group(3), m.group(4)) != impl or \
+                        (m.group(2) and os.strerror(int(m.group(2))).replace(" ", "_") not in kv.get("result", "")):
+                    diffs.append({"plan": p, "impl": kv, "model": mo, "why": "cfun_net_connect's connect() loop and Stream.Net.connectCall differ"})
+        return n, fails, stats, diffs
     finally:
         shutil.rmtree(d, ignore_errors=True)
